@@ -60,6 +60,7 @@ t = open(p).read()
 t = splice(t, "seeded2", seeded_table("agent2"))
 t = splice(t, "seeded3", seeded_table("agent3"))
 t = splice(t, "seeded4", seeded_table("agent4"))
+t = splice(t, "seeded5", seeded_table("agent5"))
 t = splice(t, "mutants", mutant_table())
 open(p, "w").write(t)
 print("tables regenerated")
